@@ -7,10 +7,11 @@ EXTENDS LfsValues, Json, IOUtils, TLCExt
 Rec == ndJsonDeserialize(IOEnv.TRACE)
 VARIABLES l,        \* next event
           areas,    \* C14: <<track area, licence>> pairs seen so far
-          codes     \* C14: track codes seen so far
+          codes,    \* C14: track codes seen so far
+          dists     \* C14: <<track code, distance in 1/1000 mile>> of the configurations that have one
 E == Rec[l]
 IsEvent(e) == l <= Len(Rec) /\ Rec[l].ev = e /\ l' = l + 1
-Same == UNCHANGED <<areas, codes>>
+Same == UNCHANGED <<areas, codes, dists>>
 
 Lim(v, w) == IF w = 2 THEN <<v[1], 0, 0, 0>> ELSE <<v[1], v[2], 0, 0>>
 
@@ -42,7 +43,8 @@ TVehRead == /\ IsEvent("VehRead") /\ Same
                   ELSE /\ E.res = "ok" /\ E.k = c.k /\ E.name = c.name /\ E.id = c.id
                        /\ E.re = E.bytes                           \* re-encodes to the identical bytes
                        /\ (c.k = "std" => E.disp = c.name)         \* printed name = wire name
-                       /\ E.is_mod = (c.k = "mod")
+                       /\ E.is_mod = (c.k = "mod") /\ E.is_builtin = ~E.is_mod
+                       /\ E.lic = VehLicence(c)
 \* a box of identifiers on which the implementation's classification is uniform (exhaustive sweep, compressed)
 TVehBox == /\ IsEvent("VehBox") /\ Same
            /\ \A b0 \in {E.lo[1], E.hi[1]}, b1 \in {E.lo[2], E.hi[2]}, b2 \in {E.lo[3], E.hi[3]}, b3 \in {E.lo[4], E.hi[4]} :
@@ -60,7 +62,11 @@ TTrackRow == /\ IsEvent("TrackRow")
              /\ CodeShapeOk(E.code)
              /\ E.bytes = TrackWire(E.code) /\ E.re = E.bytes /\ E.name = E.code /\ E.disp = E.code
              /\ E.rev = TrackReversed(E.code) /\ E.open = TrackOpen(E.code)
-             /\ (E.open => ~E.dist)
+             /\ (E.open => ~E.dist) /\ (E.dist <=> E.mile > 0) /\ E.km_ok
+             /\ AreaKey(E.code) \in DOMAIN AreaLicence /\ E.lic = AreaLicence[AreaKey(E.code)]
+             \* a reversed configuration is the same road: whichever of the two rows is seen second must agree with the first
+             /\ \A p \in dists : (TrackBaseCfg(p[1]) = TrackBaseCfg(E.code) /\ E.mile > 0) => p[2] = E.mile
+             /\ dists' = IF E.mile > 0 THEN dists \cup {<<E.code, E.mile>>} ELSE dists
              /\ E.code \notin codes
              /\ \A p \in areas : p[1] = TrackArea(E.code) => p[2] = E.lic       \* one licence per area
              /\ codes' = codes \cup {E.code} /\ areas' = areas \cup {<<TrackArea(E.code), E.lic>>}
@@ -79,7 +85,7 @@ TGvCmp == /\ IsEvent("GvCmp") /\ Same
 
 TNext == \/ (TDurDec /\ Same) \/ (TDurEnc /\ Same) \/ (TLapsDec /\ Same) \/ (TLapsEnc /\ Same)
          \/ TVehRead \/ TVehBox \/ TTrackRow \/ TTrackNon \/ TTrackEnd \/ TGvParse \/ TGvCmp
-TSpec == l = 1 /\ areas = {} /\ codes = {} /\ [][TNext]_<<l, areas, codes>>
+TSpec == l = 1 /\ areas = {} /\ codes = {} /\ dists = {} /\ [][TNext]_<<l, areas, codes, dists>>
 
 Accepted ==
   LET reached == TLCGet("stats").diameter IN
